@@ -113,7 +113,36 @@ func main() {
 			if entryFuncs[recv+"."+fname] {
 				add(fd.Body.Lbrace+1, fmt.Sprintf(" verifYield(%q);", site(fname, "entry")))
 			}
+			// Statements are only wrapped where a statement list holds them
+			// (a block, a case body): the init statement of an if / for /
+			// switch is not a place where "a; b; c" can be spliced in.
+			inList := map[ast.Stmt]bool{}
 			ast.Inspect(fd.Body, func(n ast.Node) bool {
+				switch b := n.(type) {
+				case *ast.BlockStmt:
+					for _, s := range b.List {
+						inList[s] = true
+					}
+				case *ast.CaseClause:
+					for _, s := range b.Body {
+						inList[s] = true
+					}
+				case *ast.CommClause:
+					for _, s := range b.Body {
+						inList[s] = true
+					}
+				}
+				return true
+			})
+			ast.Inspect(fd.Body, func(n ast.Node) bool {
+				if s, ok := n.(ast.Stmt); ok && !inList[s] {
+					if _, isBlock := s.(*ast.BlockStmt); !isBlock {
+						switch s.(type) {
+						case *ast.ExprStmt, *ast.DeferStmt, *ast.AssignStmt:
+							return true // (look inside, wrap nothing here)
+						}
+					}
+				}
 				switch st := n.(type) {
 				case *ast.ExprStmt:
 					call, ok := st.X.(*ast.CallExpr)
